@@ -311,6 +311,31 @@ func runC12Seq(r *report.R, id string) {
 				if over || have.IsZero() {
 					mustFail = true
 				}
+				// hostile list shapes: a hand-crafted transaction need not carry a canonical coin list
+				if rng.Intn(6) == 0 && len(coins) > 0 {
+					switch rng.Intn(4) {
+					case 0: // the same denomination twice
+						coins = append(sdk.Coins{coins[0]}, coins...)
+						amtClass += "+duplicate-denom"
+					case 1: // a zero entry
+						coins = append(sdk.Coins{sdk.Coin{Denom: daoDenoms[0], Amount: sdkmath.ZeroInt()}}, coins...)
+						amtClass += "+zero-entry"
+					case 2: // unsorted
+						if len(coins) > 1 {
+							coins = sdk.Coins{coins[1], coins[0]}
+							amtClass += "+unsorted"
+						}
+					default: // empty list
+						coins = sdk.Coins{}
+						amtClass += "+empty"
+					}
+					switch {
+					case !coins.IsValid():
+						mustFail = true
+					case len(coins) == 0:
+						mustFail = false // an empty list is a valid list: a transfer of nothing, judged by the ledger like any other
+					}
+				}
 				msg = ucdaotypes.NewMsgTransferOwnershipWithAmount(sender.Addr, rAcc, coins)
 				mv := coins
 				expect = func() { ref.transfer(sAddr, rAddr, mv) }
